@@ -4,5 +4,5 @@ package main
 import "verifharness/cmd/c42/pipesim"
 
 func main() {
-	pipesim.Main("C42", map[string]int{"plain": 5, "stop": 4, "expiry": 1, "drain": 1}, 110, 1500)
+	pipesim.Main("C42", map[string]int{"plain": 5, "stop": 4, "expiry": 1, "retry": 1, "drain": 1}, 110, 1500)
 }
